@@ -29,8 +29,9 @@ def main():
         org = j.get("origin", "")
         if " - " in org:
             note = (note + " " + org.split(" - ", 1)[1]).strip()
-        if "(round 2)" in org:
-            note = ("round 2. " + note).strip()
+        for rnd in ("2", "3"):
+            if "(round %s)" % rnd in org:
+                note = ("round %s. " % rnd + note).strip()
         seeds.append("| `%s` | %s | %s | %s |" % (os.path.basename(os.path.dirname(m)), j["property"], ", ".join(j.get("caught_by") or ["-"]),
                                                esc(j.get("needs_to_manifest", "") + (" — " + note if note else ""))))
     p = os.path.join(ROOT, "DESIGN.md")
